@@ -47,6 +47,15 @@ class VBool(V):
         return "VBool(%s)" % s.t
 
 
+class VCmp(VBool):
+    """result of a comparison between opaque objects: a truth value that also
+    remembers the (possibly element-wise) comparison object"""
+
+    def __init__(s, t, obj):
+        VBool.__init__(s, t)
+        s.obj = obj
+
+
 class VStr(V):
     def __init__(s, t):
         s.t = z3.StringVal(t) if isinstance(t, str) else t
